@@ -677,6 +677,9 @@ def rule_i(ctx: Ctx) -> None:
     c05_index.rule_n(ctx)
     c05_index.rule_o(ctx)
     c05_index.rule_p(ctx)
+    c05_index.rule_q(ctx)
+    c05_index.rule_r(ctx)
+    c05_index.rule_s(ctx)
 
 
 RULES = [rule_c, rule_d, rule_e, rule_f, rule_g, _loops, rule_h, rule_i]
